@@ -44,11 +44,13 @@ Null   == [t |-> "n", v |-> ""]
 Reject == [t |-> "x", v |-> ""]
 NullText == "\\N"
 
-IntOk    == <<"0", "-1", "2147483647", "-2147483648", "42">>                         \* 32-bit integers
+IntOk    == <<"0", "-1", "2147483647", "-2147483648", "42", "007", "+5">>             \* 32-bit integers (decimal; zero padding and a sign are fine)
 IntRange == <<"2147483648", "-2147483649", "5000000000", "99999999999999999999">>   \* integers outside 32 bits
-NumBad   == <<"12x", "abc", "1.5">>                                                 \* not integers at all
-BigOk    == <<"5000000000", "-9223372036854775808", "9223372036854775807", "0", "-7", "2147483648">>
-BigBad   == <<"12x", "9223372036854775808", "abc">>                                 \* not 64-bit integers
+NumBad   == <<"12x", "abc", "1.5", "0x1F", "1_000", "0b11">>                          \* not decimal integers at all
+BigOk    == <<"5000000000", "-9223372036854775808", "9223372036854775807", "0", "-7", "2147483648", "0000010", "00000777">>
+BigBad   == <<"12x", "9223372036854775808", "abc", "0x1F", "1_000">>                 \* not 64-bit decimal integers
+\* the number a decimal text denotes, as canonical decimal text
+Canon(txt) == CASE txt = "007" -> "7" [] txt = "+5" -> "5" [] txt = "0000010" -> "10" [] txt = "00000777" -> "777" [] OTHER -> txt
 BoolOk   == <<"true", "false", "1", "0">>
 BoolBad  == <<"maybe", "2">>
 StrOk    == <<"abc", "a b", "x,y", "q\"t", "s;t", "p|q", "tab\tx", "two\nlines", "it's", " lead">>
@@ -60,8 +62,8 @@ BoolOf(txt) == IF txt \in {"true", "1"} THEN "true" ELSE "false"
 
 Conv(ty, txt) ==
   IF txt = NullText THEN Null
-  ELSE CASE ty = "int"     -> IF Is32(txt) THEN [t |-> "i", v |-> txt] ELSE Reject
-         [] ty = "bigint"  -> IF Is64(txt) THEN [t |-> "I", v |-> txt] ELSE Reject
+  ELSE CASE ty = "int"     -> IF Is32(txt) THEN [t |-> "i", v |-> Canon(txt)] ELSE Reject
+         [] ty = "bigint"  -> IF Is64(txt) THEN [t |-> "I", v |-> Canon(txt)] ELSE Reject
          [] ty = "boolean" -> IF InSeq(txt, BoolOk) THEN [t |-> "b", v |-> BoolOf(txt)] ELSE Reject
          [] ty = "varchar" -> [t |-> "s", v |-> txt]
 
